@@ -17,9 +17,11 @@ def canon(s):
 def rust_ty(f):
     base = {"u8": "u8", "str": "String", "bytes": "Vec<u8>", "cu": "u8", "bstr": "&'a str", "bslice": "&'a minicbor::bytes::ByteSlice",
             "bu8": "&'a [u8]", "cowb": "std::borrow::Cow<'a, str>", "cown": "std::borrow::Cow<'a, str>",
-            "cowbu8": "std::borrow::Cow<'a, [u8]>", "pcd": "u8", "pce": "u8", "pcb": "u8", "pcw": "u8"}.get(f["ty"]) or NESTED[f["ty"]]
+            "cowbu8": "std::borrow::Cow<'a, [u8]>", "pcd": "u8", "pce": "u8", "pcb": "u8", "pcw": "u8", "oo": "u8"}.get(f["ty"]) or NESTED[f["ty"]]
     if f.get("skip"):
         return "u8"
+    if f["ty"] == "oo":
+        return "Option<Option<u8>>"
     if f["ty"] in COD_TYS:              # always an Option underneath; `opt` says whether it is spelled so (see spec/Derive.tla!CodTys)
         return {"plain": "Option<u8>", "boxed": "Box<Option<u8>>", "alias": "OptU8"}[f.get("osp", "plain")]
     if f["opt"] and f["ty"] != "cu":
@@ -106,6 +108,8 @@ def from_expr(f, src):
              "cowb": f"std::borrow::Cow::Owned(fv_str(&{src}))", "cown": f"std::borrow::Cow::Owned(fv_str(&{src}))",
              "cowbu8": f"std::borrow::Cow::Owned(fv_bytes(&{src}))"}.get(ty) \
         or f"<{NESTED.get(ty, 'u8')} as Dv>::from_json(&{src}[\"sub\"])"
+    if ty == "oo":
+        return f"if {src}[\"some\"] != true {{ None }} else if {src}[\"n\"] == 256 {{ Some(None) }} else {{ Some(Some(fv_u8(&{src}))) }}"
     if ty in COD_TYS:
         e = f"if {src}[\"some\"] == true {{ Some(fv_u8(&{src})) }} else {{ None }}"
         return f"Box::new({e})" if f.get("osp") == "boxed" else e
@@ -125,6 +129,8 @@ def to_expr(f, val):
         return {"u8": f"j_u8(*{v})", "cu": f"j_u8(*{v})", "str": f"j_bytes({v}.as_bytes())", "bytes": f"j_bytes({v})",
                 "bstr": f"j_borrowed({v}.as_bytes())", "bslice": f"j_borrowed(&{v}[..])", "bu8": f"j_borrowed({v})",
                 "cowb": f"j_cow({v}, true)", "cown": f"j_cow({v}, false)", "cowbu8": f"j_cowb({v})"}.get(ty) or f"j_sub({v}.to_json())"
+    if ty == "oo":
+        return f"match {val} {{ Some(Some(x)) => j_u8(*x), Some(None) => serde_json::json!({{\"some\": true, \"n\": 256, \"b\": [], \"sub\": []}}), None => j_none() }}"
     if ty in COD_TYS:
         scrut = f"&**{val}" if f.get("osp") == "boxed" else val
         return f"match {scrut} {{ Some(x) => j_u8(*x), None => j_none() }}"
